@@ -38,11 +38,11 @@ CHECKS = {
             'syntax tree (with near misses), whitespace variants and Python numbers/objects, through the type class, element '
             'constructor, value_ assignment and an attribute host.', 'Says nothing outside the value alphabet. JDK Xerces is the lexical oracle.',
             '4 C05'),
-    'C06': (MC, BFS + 'invariant on views / parents / serialised multiset in every reached state', 'Same exploration as C01; in every '
+    'C06': (MC, BFS + 'invariant on views / parents / serialised multiset in every reached state', 'Same exploration as C01 plus a forward-focused profile (multi-leaf symbols and choice heads, deeper) and an unchecked-element profile; in every '
             'reached state (including after failed calls) both child views must equal the reference list (identity-wise), parents must be '
             'right, removed children orphaned, and the output must contain each child once.', NOTE, '4 C06'),
     'C07': (MC, BFS + 'oracle: exhaustive completion search on the reference automaton after every successful addition',
-            'Every successful add / forward add / dot set reached by the exploration must leave a multiset of children that some '
+            'Every successful add / forward add / dot set reached by the exploration (incl. a deeper forward-focused profile) must leave a multiset of children that some '
             'schema-valid word can still contain (search over NFA state sets x remaining multiset, exhaustive).', NOTE, '4 C07'),
     'C08': (MC, 'model-driven: documents enumerated from the reference model per class (values, attributes, words, embeddings) '
                 'built through the API, written, re-parsed and compared as typed infosets; second round trip byte-compared',
